@@ -81,8 +81,9 @@ impl<T> RawTable<T> {
         if item.in_main {
             self.table.erase(item.bucket);
         } else if let Some(ref mut lo) = self.leftovers {
-            lo.items.reflect_remove(&item.bucket);
+            lo.before_remove(&item.bucket);
             lo.table.erase(item.bucket);
+            lo.after_remove();
         } else {
             unreachable!("invalid bucket state");
         }
@@ -94,8 +95,9 @@ impl<T> RawTable<T> {
         if item.in_main {
             self.table.remove(item.bucket).0
         } else if let Some(ref mut lo) = self.leftovers {
-            lo.items.reflect_remove(&item.bucket);
+            lo.before_remove(&item.bucket);
             let (v, _) = lo.table.remove(item.bucket);
+            lo.after_remove();
 
             if lo.table.len() == 0 {
                 let _ = self.leftovers.take();
@@ -608,6 +610,30 @@ impl<T> IntoIterator for RawTable<T> {
         unsafe {
             let iter = self.iter();
             self.into_iter_from(iter)
+        }
+    }
+}
+
+impl<T> OldTable<T> {
+    /// Tells the cached iterator that `bucket` is about to be removed from the old table.
+    ///
+    /// Must be called _before_ the removal.
+    #[cfg_attr(feature = "inline-more", inline)]
+    unsafe fn before_remove(&mut self, bucket: &raw::Bucket<T>) {
+        // `RawIter::reflect_remove` relies on pointer offsets between buckets, which do not exist
+        // for zero-sized types. See `after_remove`.
+        if mem::size_of::<T>() != 0 {
+            self.items.reflect_remove(bucket);
+        }
+    }
+
+    /// Must be called _after_ a removal announced with `before_remove`.
+    #[cfg_attr(feature = "inline-more", inline)]
+    unsafe fn after_remove(&mut self) {
+        if mem::size_of::<T>() == 0 {
+            // Every bucket that was already yielded has also been removed, so an iterator that
+            // starts over yields exactly the elements that remain.
+            self.items = self.table.iter();
         }
     }
 }
